@@ -1,5 +1,6 @@
 mod chain;
 mod evm;
+mod fees;
 mod fidelity;
 mod framework;
 mod market;
